@@ -189,6 +189,7 @@ func TestC10(t *testing.T) {
 	for i, p := range patterns {
 		names[i] = p.name
 	}
+	run.KeepGC = true
 	run.Main(t, "C10", cases, map[string]any{
 		"suites_dtls12":    len(refimpl.Suites12()),
 		"suites_dtls13":    len(refimpl.Suites13()),
